@@ -104,3 +104,35 @@ Proof.
     end; subst; try reflexivity.
   destruct j, j0; cbn in *; try discriminate; try reflexivity. apply Z.eqb_eq in H0. now subst.
 Qed.
+
+(* ---------- the traversals keep a condition on literals that the node function keeps ---------- *)
+Section MapLits.
+Variable Q : str -> Prop.
+Variable f : expr -> option expr.
+Notation SV := (fun e => Forall Q (estrs e)).
+Hypothesis Hf : forall x y, SV x -> f x = Some y -> SV y.
+
+Lemma map_bottom_up_lits : forall e e', SV e -> map_bottom_up f e = Some e' -> SV e'.
+Proof.
+  induction e; intros e' S H; cbn [map_bottom_up] in H;
+    try (cbn [obind] in H; eapply Hf; [|exact H]; exact S);
+    try (destruct (map_bottom_up f e) as [y|] eqn:M; cbn [option_map obind] in H; [|discriminate];
+         eapply Hf; [|exact H]; cbn [estrs]; apply (IHe y); [exact S|reflexivity]).
+  - destruct (map_bottom_up f e1) as [y1|] eqn:M1; cbn [obind] in H; [|discriminate]. destruct (map_bottom_up f e2) as [y2|] eqn:M2; cbn [obind] in H; [|discriminate].
+    cbn [estrs] in S. apply Forall_app in S. destruct S as [Sa Sb]. eapply Hf; [|exact H]. cbn [estrs]. apply Forall_app. split; [apply (IHe1 y1 Sa eq_refl)|apply (IHe2 y2 Sb eq_refl)].
+  - destruct (map_bottom_up f e1) as [y1|] eqn:M1; cbn [obind] in H; [|discriminate]. destruct (map_bottom_up f e2) as [y2|] eqn:M2; cbn [obind] in H; [|discriminate].
+    cbn [estrs] in S. apply Forall_app in S. destruct S as [Sa Sb]. eapply Hf; [|exact H]. cbn [estrs]. apply Forall_app. split; [apply (IHe1 y1 Sa eq_refl)|apply (IHe2 y2 Sb eq_refl)].
+Qed.
+
+Lemma map_top_down_lits : forall fuel e e', SV e -> map_top_down fuel f e = Some e' -> SV e'.
+Proof.
+  induction fuel as [|n IH]; intros e e' S H; [discriminate|]. cbn [map_top_down] in H.
+  destruct (f e) as [e1|] eqn:F; [|discriminate]. cbn [obind] in H. pose proof (Hf _ _ S F) as S1.
+  destruct e1; try (injection H as <-; exact S1);
+    try (destruct (map_top_down n f e1) as [y|] eqn:M; [|discriminate]; cbn in H; injection H as <-; cbn [estrs] in *; apply (IH _ _ S1 M)).
+  - destruct (map_top_down n f e1_1) as [y1|] eqn:M1; [|discriminate]. destruct (map_top_down n f e1_2) as [y2|] eqn:M2; [|discriminate].
+    cbn in H. injection H as <-. cbn [estrs] in *. apply Forall_app in S1. destruct S1 as [Sa Sb]. apply Forall_app. split; [apply (IH _ _ Sa M1)|apply (IH _ _ Sb M2)].
+  - destruct (map_top_down n f e1_1) as [y1|] eqn:M1; [|discriminate]. destruct (map_top_down n f e1_2) as [y2|] eqn:M2; [|discriminate].
+    cbn in H. injection H as <-. cbn [estrs] in *. apply Forall_app in S1. destruct S1 as [Sa Sb]. apply Forall_app. split; [apply (IH _ _ Sa M1)|apply (IH _ _ Sb M2)].
+Qed.
+End MapLits.
